@@ -436,6 +436,11 @@ func (f *Frame) binop(in *ssa.BinOp) {
 	}
 }
 
+// f2i: the (uninterpreted) float→int conversion of mode int.
+func (e *Enc) f2i(x string, from types.Type, width int, signed bool) string {
+	return e.ufAppSort(fmt.Sprintf("go.f2i.%d.%v", width, signed), []CVal{{S: x, T: from}}, "Int")
+}
+
 func (f *Frame) havocVal(v ssa.Value, why string) {
 	f.vals[v] = f.e.symbolic(f.prefix+v.Name(), v.Type(), f.st, f.reach)
 	f.e.note("havoc value: %s (%s)", why, f.fn.Name())
@@ -498,7 +503,14 @@ func (f *Frame) convert(in *ssa.Convert) {
 				f.setVal(in, fmt.Sprintf("((_ fp.to_ubv %d) RTZ %s)", tw, x))
 			}
 		} else {
-			f.havocVal(in, "float→int conversion in mode int")
+			// mode int: an uninterpreted function of the operand (per target width and signedness), within the
+			// range of the target type; contracts write the same conversion (int(x), int64(x), ...)
+			r := e.define(f.prefix+"f2i", "Int", e.f2i(x, from, tw, ts))
+			if fact := e.typeFact(r, to, f.st); fact != "true" {
+				e.assume(f.reach, fact)
+			}
+			f.setVal(in, r)
+			e.note("assumed: float→int conversion is a function of its operand with a result in the target type's range (%s)", f.fn.Name())
 		}
 	case isFloat(from) && isFloat(to):
 		eb, sb := 11, 53
